@@ -50,7 +50,7 @@ Do(p) ==
          l == Loc(p, s[2])
      IN /\ races' = races \cup Conflicts(p)
         /\ IF s[1] = "w"
-           THEN mem' = [mem EXCEPT ![l] = <<p, cur[p]>>] /\ UNCHANGED tainted
+           THEN mem' = [mem EXCEPT ![l] = "written by " \o ToString(p)] /\ UNCHANGED tainted
            ELSE /\ UNCHANGED mem
                 /\ tainted' = [tainted EXCEPT ![p] = @ \/ (l \in Shared /\ mem[l] # "init")]
         /\ IF stp[p] = Len(F!Footprints[prog[p][cur[p]]])
